@@ -168,11 +168,12 @@ def script_phase(spec, part, tier, seed, proof_break):
                 break
 
     # rejections not explained by a known class (verdict bit 2 unset) first
-    monf.sort(key=lambda i: 1 if (codes[i] & 4) else 0)
+    monf.sort(key=lambda i: (1 if (codes[i] & 4) else 0, 0 if (codes[i] & 1) else 1))
     seen_small = set()
     tag = f"{pname}-" if pname else ""
     rel_odir = os.path.relpath(R.odir, os.path.join(V.OUT, pid))
-    for i in monf[:sub.get("max_shrinks", 4)]:
+    nshrink = sub.get("max_shrinks", 4) * (3 if (mism or proof_break) else 1)
+    for i in monf[:nshrink]:
         small = R.shrink(lines[i])
         if small in seen_small:
             continue
@@ -193,10 +194,12 @@ def script_phase(spec, part, tier, seed, proof_break):
             "model_observations": V.model_output(pid, sub, scases[0]),
             "replay_cmd": f"./check {pid} --replay '{small}'" + (f" --part {pname}" if pname else "")})
         viol_lines.append(f"VIOLATION property={pid} replay={replay}")
-    if len(monf) > sub.get("max_shrinks", 4):
-        R.notes.append(f"{len(monf)} failing traces, first {sub.get('max_shrinks', 4)} shrunk")
+    if len(monf) > nshrink:
+        R.notes.append(f"{len(monf)} failing traces, first {nshrink} shrunk")
 
-    if not monf and (mism or proof_break):
+    # The tie between model and code (or a proof) is broken and no concrete violation outside the
+    # known classes was exhibited: the property is no longer shown to hold.
+    if (mism or proof_break) and not viol_lines:
         i = mism[0] if mism else None
         obj = {"property": pid, "part": pname, "kind": "no-failing-input-found", "seed": seed,
                "searched_scripts": len(lines) + searched}
